@@ -25,7 +25,9 @@ def gen_helix(kind=None):
     pt = {"low_pt": rng.uniform(0.05, 0.2), "high_pt": rng.uniform(2, 10)}.get(kind, rng.uniform(0.2, 2.0))
     kappa = q / pt
     dr = {"dr0": 0.0, "drneg": -rng.uniform(0.01, 3), "bigdr": rng.uniform(-30, 30)}.get(kind, rng.uniform(-1.5, 1.5))
-    phi0 = rng.choice([0.0, 1e-9, TWO_PI - 1e-9, math.pi, math.pi / 2]) if kind == "wrap" else rng.uniform(0, TWO_PI)
+    # "wrap": directions at and next to the 0 / 2*pi seam (the largest doubles below 2*pi included) and the quadrant boundaries
+    phi0 = rng.choice([0.0, 1e-9, 5e-324, TWO_PI - 1e-9, TWO_PI - 1e-12, float(np.nextafter(TWO_PI, 0)), float(np.nextafter(np.nextafter(TWO_PI, 0), 0)),
+                       math.pi, math.pi / 2, float(np.nextafter(math.pi, 4))]) if kind == "wrap" else rng.uniform(0, TWO_PI)
     bump(f"helix:{kind}:q{q:+d}")
     return [dr, phi0, kappa, rng.uniform(-10, 10), rng.uniform(-2.5, 2.5)]
 
@@ -97,7 +99,7 @@ def near_centre_pivot(par, p0):
     bump("pivot:near-centre")
     return [c[0] + d * math.cos(t), c[1] + d * math.sin(t), rng.uniform(-5, 5)]
 
-def int_columns_move(prefix):
+def _int_columns_move(prefix):
     """integer-typed parameter columns (as read from an integer branch / built from Python ints) moved to a fractional pivot given as
     plain numbers: the reported pivot is the requested one and every track equals the object moved the same way"""
     global n_eval
@@ -116,6 +118,122 @@ def int_columns_move(prefix):
                 report(f"{prefix}:pivot-not-reported:int-columns:{fe}", f"integer-typed columns moved to pivot {fp} ({form} form) report pivot {got[5:]}", {"par": ipar, "new_pivot": fp, "form": form})
             elif any(abs(a - b) > 1e-9 * (1 + abs(b)) + 1e-9 * abs(ALPHA / ipar[2]) for a, b in zip(got, want)):
                 report(f"{prefix}:array-differs-from-object:int-columns:{fe}", f"integer-typed columns moved to {fp}: {got} vs object {want}", {"par": ipar, "new_pivot": fp, "form": form})
+
+FIELDS5 = ("dr", "phi0", "kappa", "dz", "tanl")
+def snapshot(a):
+    """deep, memory-independent copy of everything a helix array holds"""
+    d = {f: json.dumps(ak.to_list(a[f])) for f in FIELDS5}
+    d["pivot"] = json.dumps(ak.to_list(a.pivot))
+    if "error" in a.fields: d["error"] = json.dumps(ak.to_list(a.error))
+    return d
+
+def _reuse_history(prefix):
+    """one helix array (built zero-copy on caller-owned NumPy buffers) moved several times and inspected in between:
+    a move never changes its source, the caller's buffers or an earlier result; the same move asked twice gives the same answer;
+    every move equals the per-track object move from the ORIGINAL numbers"""
+    global n_eval
+    m = rng.choice([2, 3, 5, 6]); P = [gen_helix() for _ in range(m)]; p0 = gen_pivot(); p1 = gen_pivot(); p2 = gen_pivot()
+    E = [gen_error() for _ in range(m)] if rng.random() < 0.7 else None
+    nested = m >= 3 and rng.random() < 0.5; cnts = [1, m - 2, 1]
+    bump(f"history:reuse:{'nested' if nested else 'flat'}:{'err' if E is not None else 'noerr'}")
+    cols = {c: np.array([pp[k] for pp in P], dtype=np.float64) for k, c in enumerate(FIELDS5)}
+    ebuf = None if E is None else np.ascontiguousarray(np.array(E, dtype=np.float64))
+    keep = {c: v.copy() for c, v in cols.items()}; ekeep = None if ebuf is None else ebuf.copy()
+    wrap_ = (lambda x: ak.unflatten(ak.Array(x), cnts)) if nested else (lambda x: ak.Array(x))
+    kw = {c: wrap_(v) for c, v in cols.items()}
+    if ebuf is not None: kw["error"] = wrap_(ebuf)
+    ha = p3.helix_awk(**kw, pivot=tuple(p0))
+    s0 = snapshot(ha)
+    m1 = ha.change_pivot(*p1); s1 = snapshot(m1); n_eval += 1
+    inp = {"tracks": P, "pivot": p0, "moves": [p1, p2], "nested": nested, "with_error": E is not None}
+    def source_intact(after):
+        if snapshot(ha) != s0: report(f"{prefix}:history:source-modified-by-move", f"the helix array itself changed after {after} (fields differ from the values it was built with)", inp)
+        if any(not np.array_equal(cols[c], keep[c]) for c in cols) or (ebuf is not None and not np.array_equal(ebuf, ekeep)):
+            report(f"{prefix}:history:caller-buffer-modified", f"a NumPy array the caller built the helix from was overwritten by {after}", inp)
+    source_intact("one change_pivot")
+    m2 = ha.change_pivot(*p2); n_eval += 1
+    if snapshot(m1) != s1: report(f"{prefix}:history:earlier-result-changed", "the result of the first move changed when the source was moved again", inp)
+    source_intact("two change_pivot calls")
+    m1b = ha.change_pivot(*p1); n_eval += 1
+    if snapshot(m1b) != s1: report(f"{prefix}:history:not-repeatable", "the same move of the same array gave a different result the second time", inp)
+    for lab, out, pp in (("second move", m2, p2), ("first move", m1, p1)):
+        flat = {f: ak.to_numpy(ak.flatten(out[f], axis=None)) for f in FIELDS5}
+        eo = None if E is None else ak.to_numpy(ak.flatten(out.error, axis=None)).reshape(-1, 5, 5)
+        for j in range(m):
+            ho = obj(P[j], p0, None if E is None else E[j]).change_pivot(*pp); sc = scale(P[j], p0, pp)
+            if any(abs(float(flat[f][j]) - w) > 1e-9 * sc * (1 + abs(P[j][4])) for f, w in zip(FIELDS5, pars(ho))):
+                report(f"{prefix}:history:array-differs-from-object", f"{lab} of a re-used array, track {j}: {[float(flat[f][j]) for f in FIELDS5]} vs object {pars(ho)}", inp); break
+            if E is not None and not np.allclose(eo[j], np.asarray(ho.error), rtol=1e-9, atol=1e-15):
+                report(f"{prefix}:history:error-differs-from-object", f"{lab} of a re-used array, track {j}: propagated error matrix differs from the object moved from the original numbers", inp); break
+
+def _object_mutation(prefix):
+    """HelixObject has plain public attributes: after one is reassigned, every derived quantity follows the new value"""
+    global n_eval
+    par, p0, p1 = gen_helix(), gen_pivot(), gen_pivot()
+    h = obj(par, p0); _ = (h.radius, h.momentum, h.position, h.charge); _ = h.change_pivot(*p1); _ = h.isclose(h)
+    k = rng.randrange(5); new = list(par)
+    new[k] = {0: par[0] + 0.37, 1: (par[1] + 1.1) % TWO_PI, 2: par[2] * rng.choice([1.02, -1.0, 0.5]), 3: par[3] - 2.5, 4: par[4] + 0.3}[k]
+    setattr(h, FIELDS5[k], new[k]); n_eval += 1; bump(f"history:object-attribute:{FIELDS5[k]}")
+    f = obj(new, p0); a, b = h.change_pivot(*p1), f.change_pivot(*p1)
+    got = pars(a) + [h.radius, h.momentum.pt, h.momentum.phi, h.momentum.pz, h.position.x, h.position.y, h.position.z, h.charge]
+    want = pars(b) + [f.radius, f.momentum.pt, f.momentum.phi, f.momentum.pz, f.position.x, f.position.y, f.position.z, f.charge]
+    if any(abs(g - w) > 1e-12 * (1 + abs(w)) for g, w in zip(got, want)):
+        report(f"{prefix}:history:stale-after-attribute-update:{FIELDS5[k]}", f"after h.{FIELDS5[k]} = {new[k]!r} the object gives {got}, a fresh object with the same numbers {want}",
+               {"par": par, "pivot": p0, "new_pivot": p1, "attribute": FIELDS5[k], "value": new[k]})
+
+def _reordered_views(prefix):
+    """helix arrays (with error matrices) whose tracks / events are re-ordered or selected by an index, inside events, across events,
+    and as a column of an event record: every track keeps ITS parameters, pivot and error matrix"""
+    global n_eval
+    m = 7; P = [gen_helix() for _ in range(m)]; E = [gen_error() for _ in range(m)]; cnts = [2, 0, 3, 2]
+    pvs = [[rng.uniform(-3, 3) for _ in range(3)] for _ in range(m)]; p1 = gen_pivot()
+    un = lambda x: ak.unflatten(ak.Array(np.array(x, dtype=np.float64)), cnts)
+    kw = {c: un([pp[k] for pp in P]) for k, c in enumerate(FIELDS5)}
+    kw["error"] = un(E); kw["pivot"] = ak.zip({"x": un([v[0] for v in pvs]), "y": un([v[1] for v in pvs]), "z": un([v[2] for v in pvs])}, with_name="Vector3D")
+    ha = p3.helix_awk(**kw)
+    ref = {}
+    for j in range(m):
+        ho = obj(P[j], pvs[j], E[j]).change_pivot(*p1); ref[(P[j][0], P[j][1])] = (j, pars(ho), np.asarray(ho.error))
+    run = ak.Array([3, 1, 4, 2])
+    views = {"inner-argsort": lambda: ha[ak.argsort(abs(ha.kappa), axis=1)], "outer-index": lambda: ha[[2, 0, 3, 1]], "outer-index-dropping": lambda: ha[[2, 0]],
+             "inner-mask": lambda: ha[ha.kappa > 0], "outer-slice": lambda: ha[1:],
+             "record-column-reordered": lambda: ak.zip({"run": run, "trk": ha}, depth_limit=1)[ak.argsort(run)].trk,
+             "record-column-masked": lambda: ak.zip({"run": run, "trk": ha}, depth_limit=1)[run > 1].trk}
+    for vname, mk in views.items():
+        bump(f"layout:reordered:{vname}"); n_eval += 1
+        inp = {"tracks": P, "pivots": pvs, "new_pivot": p1, "counts": cnts, "view": vname}
+        try:
+            hv = mk(); out = hv.change_pivot(*p1)
+            if ak.to_list(ak.num(out.dr, axis=-1)) != ak.to_list(ak.num(hv.dr, axis=-1)):
+                report(f"{prefix}:nesting-changed:reordered:{vname}", f"output nesting {ak.to_list(ak.num(out.dr, axis=-1))} differs from the view's {ak.to_list(ak.num(hv.dr, axis=-1))}", inp); continue
+            sdr = ak.to_numpy(ak.flatten(hv.dr, axis=None)); sph = ak.to_numpy(ak.flatten(hv.phi0, axis=None))
+            flat = {f: ak.to_numpy(ak.flatten(out[f], axis=None)) for f in FIELDS5}
+            eo = ak.to_numpy(ak.flatten(out.error, axis=None)).reshape(-1, 5, 5)
+            for t in range(len(sdr)):
+                j, wp, we = ref[(float(sdr[t]), float(sph[t]))]; sc = scale(P[j], pvs[j], p1)
+                if any(abs(float(flat[f][t]) - w) > 1e-9 * sc * (1 + abs(P[j][4])) for f, w in zip(FIELDS5, wp)):
+                    report(f"{prefix}:array-differs-from-object:reordered:{vname}", f"track {j} at position {t} of a {vname} view: {[float(flat[f][t]) for f in FIELDS5]} vs object {wp}", inp); break
+                if not np.allclose(eo[t], we, rtol=1e-9, atol=1e-15):
+                    report(f"{prefix}:error-differs-from-object:reordered:{vname}", f"track {j} at position {t} of a {vname} view carries another track's propagated error matrix", inp); break
+        except Exception as e:
+            report(f"{prefix}:raises:reordered:{vname}:{type(e).__name__}", f"{vname} view raised {type(e).__name__}: {str(e)[:200]}", inp)
+
+def _guarded(fn, name):
+    """a search item that makes the implementation raise reports that as a violation with the item's name instead of aborting the search"""
+    def run(prefix):
+        st = rng.getstate()
+        try:
+            fn(prefix)
+        except Exception as e:  # noqa
+            import traceback
+            tb = traceback.extract_tb(e.__traceback__)
+            where = next((f"{t.filename.split('/')[-1]}:{t.lineno}" for t in reversed(tb) if "/pybes3/" in t.filename), "?")
+            report(f"{prefix}:{name}:raises:{type(e).__name__}", f"{name} made the implementation raise {type(e).__name__} at {where}: {str(e)[:200]}", {"item": name, "rng_state_hash": hash(st) % 10**9})
+    return run
+int_columns_move = _guarded(_int_columns_move, "int-columns")
+reuse_history = _guarded(_reuse_history, "history")
+object_mutation = _guarded(_object_mutation, "history-object")
+reordered_views = _guarded(_reordered_views, "reordered")
 
 # ------------------------------------------------------------------------------------------------ validate
 def do_validate():
@@ -162,6 +280,8 @@ def do_c06():
     for i in range(n + len(CORNERS)):
         par, p0, p1 = corner(i) or (gen_helix(), gen_pivot(), gen_pivot())
         if i >= len(CORNERS) and i % 8 == 0: p1 = near_centre_pivot(par, p0)
+        if i % 12 == 0: object_mutation("C06")
+        if i % 25 == 0: int_columns_move("C06"); reuse_history("C06")
         c = centre(par, p0)
         if math.hypot(c[0] - p1[0], c[1] - p1[1]) < 1e-3: continue
         fe = rng.choice(["obj", "rec", "arr"])
@@ -238,6 +358,8 @@ def do_c11():
         seq = [cc[2]] if cc else [gen_pivot() for _ in range(rng.randrange(1, 5))]
         if not cc and i % 8 == 0: seq[rng.randrange(len(seq))] = near_centre_pivot(par, p0)
         if i % 10 == 0: int_columns_move("C11")
+        if i % 12 == 0: reuse_history("C11"); object_mutation("C11")
+        if i % 40 == 0: reordered_views("C11")
         c = centre(par, p0)
         if any(math.hypot(c[0] - p[0], c[1] - p[1]) < 1e-3 for p in seq + [p0]): continue
         sc = scale(par, p0, seq[-1]); pitch = abs(TWO_PI * (ALPHA / par[2]) * par[4])
@@ -280,7 +402,7 @@ def do_c11():
             same, _, se = move(fe, par, p0, p0, E); n_eval += 1
             if abs(same[0] - par[0]) > 1e-8 * sc or abs(wrap(same[1] - par[1])) > 1e-9 or abs(same[3] - par[3]) > 1e-8 * sc:
                 report(f"C11:identity:{q}:{fe}", "move to the current pivot changed the parameters", {"par": par, "pivot": p0, "out": same})
-            if E is not None and not np.allclose(se, E, rtol=1e-7, atol=1e-14):
+            if E is not None and not np.allclose(se, E, rtol=1e-7, atol=1e-14 + 1e-14 * (1 + abs(ALPHA / par[2])) * float(np.abs(E).max())):
                 report(f"C11:identity-error:{q}:{fe}", "move to the current pivot changed the error matrix", {"par": par, "pivot": p0})
             there = move(fe, par, p0, seq[0], E)
             back, _, be = move(fe, *there[:2], p0, there[2]); n_eval += 1
@@ -339,6 +461,16 @@ def call_forms(par, p0, E, p1):
         n_eval += 1
         if [float(a.pivot[c][1]) for c in "xyz"] != [0.0, 0.0, 0.0] or [float(a[f][1]) for f in ("dr", "phi0", "kappa", "dz", "tanl")] != par:
             report(f"C13:constructor-forms-differ:helix_awk:{cname}:default-pivot", "default pivot is not the origin / parameters differ", {"par": par})
+    # physics-quantity constructor of the ARRAY kind with every pivot form: the helix built from (position, momentum, charge, pivot)
+    # of a helix is that helix, and equals the object built from the same numbers
+    aa = p3.helix_awk(raw, pivot=apv["array"])
+    for pname, pv in apv.items():
+        bump(f"callform:awk-physics:{pname}"); n_eval += 1
+        hb = p3.helix_awk(momentum=aa.momentum, position=aa.position, charge=aa.charge, pivot=pv)
+        back = [float(hb[f][1]) for f in FIELDS5] + [float(hb.pivot[c][1]) for c in "xyz"]
+        ho = p3.helix_obj(momentum=ref.momentum, position=ref.position, charge=ref.charge, pivot=tuple(p0)); wo = pars(ho) + piv_of(ho)
+        if any(abs(wrap(g - w)) > 1e-9 if k == 1 else abs(g - w) > 1e-9 * (1 + abs(w)) for k, (g, w) in enumerate(zip(back, wo))):
+            report(f"C13:constructor-forms-differ:helix_awk:physics:{pname}-pivot", f"helix_awk(momentum, position, charge, pivot={pname}) gives {back}, helix_obj from the same numbers {wo}", {"par": par, "pivot": p0})
     # physics-quantity constructor: momentum / position given as tuple, vector object, Awkward record
     mom, pos = ref.momentum, ref.position
     mforms = {"vector": mom, "tuple": (mom.px, mom.py, mom.pz), "record": ak.Record({"px": mom.px, "py": mom.py, "pz": mom.pz})}
@@ -385,6 +517,7 @@ def do_c13():
                 if any(abs(g - w) > 1e-9 * (1 + abs(w)) for g, w in zip(got, want)):
                     report(f"C13:container-forms-differ:int-columns:{pv_kind}-pivot", f"helix_awk with integer-typed columns and pivot {fp}: position/pivot {got} vs object {want}", {"par": ipar, "pivot": fp})
         if i % 10 == 0: call_forms(par, p0, gen_error(), gen_pivot())
+        if i % 10 == 5: call_forms(par, rng.choice([[0.0, 0.0, rng.uniform(-20, 20)], [rng.uniform(-5, 5), 0.0, 0.0], [0.0, rng.uniform(-5, 5), 0.0]]), gen_error(), gen_pivot())
         # three ways of passing parameters
         h1 = p3.helix_obj(dr, phi0, kappa, dz, tanl, pivot=tuple(p0)); h2 = p3.helix_obj(dr=dr, phi0=phi0, kappa=kappa, dz=dz, tanl=tanl, pivot=tuple(p0))
         h3 = p3.helix_obj(params=(dr, phi0, kappa, dz, tanl), pivot=vector.obj(x=p0[0], y=p0[1], z=p0[2])); n_eval += 3
@@ -543,6 +676,17 @@ def do_c07():
                     wj = obj(P[j], pvs[j]).change_pivot(*p1).dr
                     if len(gd) != m or abs(gd[j] - wj) > 1e-9 * scale(P[j], pvs[j], p1):
                         report("C07:array-differs-from-object:per-track-initial-pivot:doc-form", f"track {j}: per-track initial pivot in the documented ak.Array(dict) form", {"tracks": P, "pivots": pvs, "new_pivot": p1}); break
+                # ... and as the pivot of the physics-quantity constructor: the helix rebuilt from (position, momentum, charge, pivot) is the helix
+                hb = p3.helix_awk(momentum=hd.momentum, position=hd.position, charge=hd.charge, pivot=docpv); n_eval += 1
+                if ak.to_list(ak.num(hb.dr, axis=-1)) != ak.to_list(ak.num(hd.dr, axis=-1)) or hb.dr.ndim != hd.dr.ndim:
+                    report("C07:nesting-changed:physics-constructor:doc-form-pivot", f"helix_awk(momentum, position, charge, pivot=<documented per-track form>) has nesting "
+                           f"{str(hb.dr.type)[:80]} for tracks nested as {str(hd.dr.type)[:80]}", {"tracks": P, "pivots": pvs})
+                else:
+                    gb = {f: ak.to_numpy(ak.flatten(hb[f], axis=None)) for f in fields}
+                    for j in range(m):
+                        if any(abs(wrap(float(gb[f][j]) - P[j][k])) > 1e-9 if f == "phi0" else abs(float(gb[f][j]) - P[j][k]) > 1e-9 * (1 + abs(P[j][k])) for k, f in enumerate(fields)):
+                            report("C07:array-differs-from-object:physics-constructor:doc-form-pivot", f"track {j} rebuilt from its physics quantities with the documented per-track pivot form: "
+                                   f"{[float(gb[f][j]) for f in fields]} vs {P[j]}", {"tracks": P, "pivots": pvs}); break
                 hz = p3.helix_awk(**kw, pivot=tuple(p0)); oz = hz.change_pivot(docpv); n_eval += 1
                 gz = ak.to_numpy(ak.flatten(oz.dr, axis=None))
                 for j in range(m):
@@ -574,6 +718,8 @@ def do_c07():
                         report("C07:array-differs-from-object:isclose:raw-phi0", f"track {j}: array isclose {bool(ga[j])}, object isclose {wo} (phi0 written outside [0, 2*pi), partner pivot {'same' if pb is p0 else 'different'})",
                                {"tracks": Pa, "partners": Pb, "pivot": p0, "partner_pivot": pb}); break
         if i % 6 == 0: int_columns_move("C07")
+        if i % 4 == 0: reordered_views("C07")
+        if i % 5 == 0: reuse_history("C07")
         # permutation equivariance on the flat layout
         perm = list(range(m)); rng.shuffle(perm)
         a1 = awk(P, [p0] * m).change_pivot(*p1); a2 = awk([P[k] for k in perm], [p0] * m).change_pivot(*p1); n_eval += 1
@@ -600,26 +746,33 @@ def do_c12():
             # radial moves (turning angle 0 up to rounding): onto the helix' own reference point, and along the line pivot - centre
             t = rng.choice([1.0, rng.uniform(-3, 3)]); bump("pivot:radial")
             p1 = [p0[0] + t * par[0] * math.cos(par[1]) + (0 if t == 1.0 else t * math.cos(par[1])), p0[1] + t * par[0] * math.sin(par[1]) + (0 if t == 1.0 else t * math.sin(par[1])), p0[2] + rng.uniform(-2, 2)]
+        if i % 10 == 0: reuse_history("C12")
+        if i % 25 == 0: reordered_views("C12")
         c = centre(par, p0)
         if math.hypot(c[0] - p1[0], c[1] - p1[1]) < 0.5: continue
         base = fmap(par, p0, p1)
         if abs(abs(wrap(base[1] - par[1])) - math.pi) < 1e-2: continue
         q = "pos" if par[2] > 0 else "neg"
         E = gen_error()
+        if i % 9 == 4:
+            # an integer-typed error matrix (np.eye(5, dtype=int), a nested list of Python ints, ...) is the same matrix
+            A = np.array([[rng.randrange(-3, 4) for _ in range(5)] for _ in range(5)], dtype=np.int64)
+            E = A @ A.T + np.diag([1, 2, 3, 4, 5]); bump("error:integer-dtype")
         J = np.zeros((5, 5))
         for j in range(5):
             hstep = 1e-6 * max(1.0, abs(par[j]))
             up = list(par); up[j] += hstep; dn = list(par); dn[j] -= hstep
             dv = fmap(up, p0, p1) - fmap(dn, p0, p1); dv[1] = wrap(dv[1])      # phi0 is an angle: difference across the 0 / 2*pi seam
             J[:, j] = dv / (2 * hstep)
-        want = J @ E @ J.T
+        want = J @ E.astype(np.float64) @ J.T
+        etag = ":integer-error-matrix" if E.dtype.kind in "iu" else ""
         for fe in ("obj", "arr"):
             if fe == "obj": got = np.asarray(obj(par, p0, E).change_pivot(*p1).error)
             else: got = ak.to_numpy(awk([gen_helix(), par], [p0, p0], [gen_error(), E]).change_pivot(*p1).error[1])
             n_eval += 1
             tol = 1e-5 * (np.abs(want).max() + 1e-12) + 1e-4 * np.sqrt(np.outer(np.abs(np.diag(want)), np.abs(np.diag(want))))
             if not np.all(np.abs(got - want) <= tol + 1e-18):
-                report(f"C12:not-JEJT:{q}:{fe}", f"propagated error matrix differs from J E J^T with the finite-difference Jacobian of the parameter map (max rel dev {np.abs(got - want).max() / (np.abs(want).max() + 1e-300):.3g})",
+                report(f"C12:not-JEJT:{q}:{fe}{etag}", f"propagated error matrix differs from J E J^T with the finite-difference Jacobian of the parameter map (max rel dev {np.abs(got - want).max() / (np.abs(want).max() + 1e-300):.3g})",
                        {"par": par, "pivot": p0, "new_pivot": p1, "error": E.tolist()})
             if not np.allclose(got, got.T, rtol=1e-10, atol=1e-18):
                 report(f"C12:asymmetric:{fe}", "propagated error matrix is not symmetric", {"par": par, "pivot": p0, "new_pivot": p1})
@@ -631,8 +784,9 @@ def do_c12():
             report("C12:error-appears", "helix without error matrix acquired one", {"par": par})
         if canonical(par):
             same = np.asarray(obj(par, p0, E).change_pivot(*p0).error)
-            if not np.allclose(same, E, rtol=1e-7, atol=1e-15):
-                report(f"C12:identity-move-changes-error:{q}", "move to the same pivot changed the error matrix", {"par": par, "pivot": p0})
+            # J = I up to rounding of order eps * |r| in its off-diagonal entries: absolute slack eps-scaled by |r| and the matrix' size
+            if not np.allclose(same, E, rtol=1e-7, atol=1e-15 + 1e-14 * (1 + abs(ALPHA / par[2])) * float(np.abs(E).max())):
+                report(f"C12:identity-move-changes-error:{q}{etag}", "move to the same pivot changed the error matrix", {"par": par, "pivot": p0})
     samples.append({"helix": par, "pivot": p0, "new_pivot": p1})
 
 with warnings.catch_warnings():
